@@ -25,9 +25,11 @@
 (***************************************************************************)
 EXTENDS Integers, Sequences, FiniteSets, TLC, Json, IOUtils
 
-CONSTANTS MaxLen
+CONSTANTS MaxLen, Mode          \* Mode = "body": token sequences as function bodies;  "module": as whole modules
 
-Alphabet == {"{", "}", "(", ")", ";", "=", "if", "else", "while", "do", "for", "return", "break", "continue", "T", "x", "n"}
+BodyAlphabet == {"{", "}", "(", ")", ";", "=", "if", "else", "while", "do", "for", "return", "break", "continue", "T", "x", "n"}
+ModuleAlphabet == {"import", "S", ";", "struct", "x", "{", "}", "T", "function", "export", "(", ")", "->", ",", "=", "n"}
+Alphabet == IF Mode = "body" THEN BodyAlphabet ELSE ModuleAlphabet
 Probes == IF "BATCH" \in DOMAIN IOEnv THEN JsonDeserialize(IOEnv.BATCH) ELSE <<>>
 
 At(s, i) == IF i >= 1 /\ i <= Len(s) THEN s[i] ELSE ""
@@ -69,6 +71,35 @@ ParseStmt(s, i) ==
     [] OTHER -> IF IsDeclStart(s, i) THEN Expect(s, ParseDecl(s, i), ";") ELSE Expect(s, ParseE(s, i), ";")
 IsBody(s) == ParseList(s, 1) = Len(s) + 1
 
+(* the module level:                                                          *)
+(*   module   ::= item+                                                        *)
+(*   item     ::= 'import' S ';'  |  decl ';'                                  *)
+(*              | 'struct' x '{' ( decl ';' )* '}'                             *)
+(*              | [ 'export' ] 'function' x '(' [ arg ( ',' arg )* ] ')' '->' type ( '{' statement* '}' | ';' )   *)
+(*   arg      ::= type [ x ]                                                   *)
+IsType(s, i) == At(s, i) \in {"T", "x"}
+RECURSIVE ParseArgs(_, _), ParseFields(_, _), ParseItems(_, _)
+ParseArgs(s, i) == IF ~IsType(s, i) THEN 0                                   \* at least one argument; returns the position of ')'
+                   ELSE LET j == IF At(s, i + 1) = "x" THEN i + 2 ELSE i + 1 IN
+                        IF At(s, j) = "," THEN ParseArgs(s, j + 1) ELSE j
+ParseFields(s, i) == IF At(s, i) = "}" THEN i
+                     ELSE LET d == Expect(s, ParseDecl(s, i), ";") IN IF d = 0 THEN 0 ELSE ParseFields(s, d)
+ParseItem(s, i) ==
+  LET t == At(s, i) IN
+  CASE t = "import" -> Expect(s, Expect(s, i + 1, "S"), ";")
+    [] t = "struct" -> LET o == Expect(s, Expect(s, i + 1, "x"), "{") IN IF o = 0 THEN 0 ELSE Expect(s, ParseFields(s, o), "}")
+    [] t \in {"export", "function"} ->
+         LET f == IF t = "export" THEN Expect(s, i + 1, "function") ELSE i + 1
+             o == Expect(s, Expect(s, f, "x"), "(")
+             a == IF o = 0 THEN 0 ELSE IF At(s, o) = ")" THEN o ELSE ParseArgs(s, o)
+             r == Expect(s, Expect(s, a, ")"), "->")
+             ty == IF r > 0 /\ IsType(s, r) THEN r + 1 ELSE 0 IN
+         IF ty = 0 THEN 0 ELSE IF At(s, ty) = ";" THEN ty + 1 ELSE IF At(s, ty) = "{" THEN Expect(s, ParseList(s, ty + 1), "}") ELSE 0
+    [] OTHER -> Expect(s, ParseDecl(s, i), ";")
+ParseItems(s, i) == IF i = 0 THEN 0 ELSE IF i > Len(s) THEN i ELSE ParseItems(s, ParseItem(s, i))
+IsModule(s) == Len(s) > 0 /\ ParseItems(s, 1) = Len(s) + 1
+Member(s) == IF Mode = "body" THEN IsBody(s) ELSE IsModule(s)
+
 VARIABLE text
 Texts == UNION {[1..k -> Alphabet] : k \in 0..MaxLen}
 Init == text \in Texts \cup {Probes[i] : i \in 1..Len(Probes)}
@@ -76,8 +107,8 @@ Next == UNCHANGED text
 Spec == Init /\ [][Next]_text
 
 \* a body stays a body when it is put into braces, and two bodies concatenate to a body (sanity laws of the recognizer)
-BracesLaw == IsBody(text) => IsBody(<<"{">> \o text \o <<"}">>)
-ConcatLaw == IsBody(text) => IsBody(text \o text)
-PrefixLaw == (IsBody(text) /\ Len(text) > 0) => text[Len(text)] \in {";", "}", ")"}
-Report == PrintT(ToJson([text |-> text, ok |-> IsBody(text)]))
+BracesLaw == (Mode = "body" /\ IsBody(text)) => IsBody(<<"{">> \o text \o <<"}">>)
+ConcatLaw == Member(text) => Member(text \o text)
+PrefixLaw == (Member(text) /\ Len(text) > 0) => text[Len(text)] \in {";", "}", ")"}
+Report == PrintT(ToJson([text |-> text, ok |-> Member(text)]))
 =============================================================================
